@@ -4,6 +4,7 @@
    the final state.  Instances: the attribute fields of a freshly imported signal are empty; the signals map
    only holds entries of the message being imported. *)
 From Coq Require Import String Ascii ZArith List Bool Lia.
+From Coq Require Import ZifyBool.
 From Acme.C10 Require Import DbcDoc BusModel Import Proofs ProofsEnum ProofsLayout ProofsFaithful ProofsMux ProofsIds.
 Import ListNotations.
 Open Scope Z_scope.
@@ -21,7 +22,7 @@ Section Walk.
   Hypothesis HP_desc : forall s dsc, P s -> P (set_desc s dsc).
   Hypothesis H_sig : forall st id ds s st', Q st -> In (id, ds) isigs ->
     import_signal env st mpos msgid id ds = Ok (s, st') -> P s /\ Q st'.
-  Hypothesis HP_mux : forall id name gc gs,
+  Hypothesis HP_mux : forall id name gc gs, 0 < gc -> 0 < gs ->
     P (mksignal id name KMux 0 None [] 0 false fl_one fl_zero fl_zero fl_zero EmptyString 0 gc gs EmptyString fl_zero 0 []).
   Hypothesis HQ_mux : forall st id dmx, Q st -> In (id, dmx) isigs ->
     Q (set_sigmap st (((msgid, ds_name dmx), (mpos, id)) :: is_sigmap st)).
@@ -75,10 +76,13 @@ Section Walk.
     import_mux_signal env st mpos msgid msize id dmx muxed = Ok (t, st') -> tree_G t /\ Q st'.
   Proof.
     intros st msize id dmx muxed t st' Hq Hin Hall H. unfold import_mux_signal in H.
-    repeat match type of H with (if ?c then _ else _) = _ => destruct c; [discriminate|] end.
+    destruct (existsb _ muxed); [discriminate|].
+    destruct (ds_size dmx =? 0); [discriminate|].
+    destruct (calc_value_from_size (ds_size dmx) <=? 0) eqn:Egc; [discriminate|].
+    match type of H with (if ?c then _ else _) = _ => destruct c eqn:Egs; [discriminate|] end.
     apply bind_ok in H. destruct H as [[kids belows] [Hk H]]. inversion H; subst t st'. clear H.
     split; [|apply HQ_mux; assumption]. split; cbn [fst snd].
-    - destruct (lookup key_eqb (msgid, ds_name dmx) (ie_sig_desc env)); [apply HP_desc|]; apply HP_mux.
+    - destruct (lookup key_eqb (msgid, ds_name dmx) (ie_sig_desc env)); [apply HP_desc|]; apply HP_mux; lia.
     - intros d Hd. eapply mux_children_G; eauto.
   Qed.
 
